@@ -152,6 +152,50 @@ pub fn wire(ctx: &GenCtx, rng: &mut Rng, _run: u64) -> Plan {
             plan.ops.push(Op::Deliver { env: e, fault: WireFault::None, entry });
         }
     }
+    // chain extension with the signer's cooperation: key a signs, as a message, the LMS public key of key b
+    // (same hash) — as it is, and with a type code overwritten before it is signed — and the chain is extended by
+    // that element and one of b's signatures.  The unaltered extension is a valid RFC 8554 signature under a's
+    // public key with the level count raised; the altered ones are not.  Mutations of finished signatures cannot
+    // reach this: altering a signed child key afterwards breaks the parent's signature over it.
+    {
+        let pairs: Vec<(usize, usize)> = (0..plan.keys.len()).flat_map(|a| (0..plan.keys.len()).map(move |b| (a, b))).filter(|&(a, b)| a != b && plan.keys[a].hash.unmetered() == plan.keys[b].hash.unmetered() && plan.keys[a].hash == plan.keys[b].hash && plan.keys[a].params.len() + plan.keys[b].params.len() <= 8).collect();
+        if !pairs.is_empty() {
+            let (a, b) = *rng.pick(&pairs);
+            // envelope indices of b's releases: envelopes were sent key by key, release by release
+            let mut first_env_of = vec![0usize; plan.keys.len()];
+            let mut rels = vec![0usize; plan.keys.len()];
+            {
+                let mut env = 0usize;
+                let mut cur_key = usize::MAX;
+                for op in &plan.ops {
+                    if let Op::Send { key, .. } = op {
+                        if *key != cur_key {
+                            first_env_of[*key] = env;
+                            cur_key = *key;
+                        }
+                        rels[*key] += 1;
+                        env += 1;
+                    }
+                }
+            }
+            let (bw, bh) = plan.keys[b].params[0];
+            let other_ots = *rng.pick(&[1u32, 2, 3, 4].iter().cloned().filter(|c| Some(*c) != model::ots_code(bw)).collect::<Vec<_>>());
+            let other_lms = *rng.pick(&[5u32, 6, 7, 8, 9].iter().cloned().filter(|c| Some(*c) != model::lms_code(bh)).collect::<Vec<_>>());
+            let variants: [(Option<u32>, Option<u32>); 4] = [(None, None), (Some(other_lms), None), (None, Some(other_ots)), (Some(rng.below(12) as u32), Some(rng.below(6) as u32))];
+            for (vi, (lms_type, ots_type)) in variants.into_iter().enumerate() {
+                plan.ops.push(Op::Inject { key: a, counter: vi as u64 });
+                plan.ops.push(Op::ChildKeyAsNextMessage { child: b, lms_type, ots_type });
+                plan.ops.push(Op::Sign { proc: a, msg: Msg { len: 0, cseed: 0 }, api: Api::Fn, cb: Cb::Accept, aux: None });
+                plan.ops.push(Op::Send { key: a, release: usize::MAX });
+                let env = n_envs;
+                n_envs += 1;
+                let child_env = first_env_of[b] + rng.below(rels[b].max(1) as u64) as usize;
+                for entry in ALL_ENTRIES {
+                    plan.ops.push(Op::Deliver { env, fault: WireFault::Graft { child_env }, entry });
+                }
+            }
+        }
+    }
     let faulted = if ctx.quick { 60 } else { 200 };
     for _ in 0..faulted {
         let env = rng.below(n_envs as u64) as usize;
